@@ -41,8 +41,9 @@ class Inconclusive(Exception):
 class Driver:
     """JSON-lines client of one vdrv process. profile: 'release' (overflow checks off) or 'checked'."""
 
-    def __init__(self, profile="release", timeout=20.0):
+    def __init__(self, profile="release", timeout=20.0, env=None):
         self.profile = profile
+        self.env = env              # extra environment of the driver process (e.g. TZ: the process's local time zone)
         self.path = os.path.join(TARGET, profile, "vdrv")
         self.timeout = timeout
         self.proc = None
@@ -56,7 +57,7 @@ class Driver:
         # 16 GiB address space per driver process: a runaway allocation ends that process, not the machine
         cmd = ([PRLIMIT, "--as=%d" % (16 << 30)] if PRLIMIT else []) + [self.path]
         self.proc = subprocess.Popen(cmd, stdin=subprocess.PIPE, stdout=subprocess.PIPE,
-                                     stderr=subprocess.DEVNULL, bufsize=0)
+                                     stderr=subprocess.DEVNULL, bufsize=0, env=dict(os.environ, **self.env) if self.env else None)
         self.buf = b""
 
     def stop(self):
